@@ -94,7 +94,7 @@ Qed.
 
 Lemma nothing_verifies_rejects_or_zero : forall r si,
   nothing_verifies si = true ->
-  verify_sync_info r si = Reject \/ verify_sync_info r si = Ok (None, 0, false).
+  verify_sync_info r si = Reject \/ (verify_sync_info r si = Ok (None, 0, false) /\ si_tc si = None).
 Proof.
   intros r si H. unfold nothing_verifies in H.
   apply andb_prop in H; destruct H as [H H3]. apply andb_prop in H; destruct H as [H1 H2].
@@ -102,9 +102,19 @@ Proof.
     [unfold verify_sync_info_simple | unfold verify_sync_info_aggregate]; unfold verify_tc_part;
     destruct (si_tc si) as [t|].
   - destruct (t_ok t); [discriminate|]. left; reflexivity.
-  - destruct (si_qc si) as [q|]; [destruct (q_ok q); [discriminate|]; left; reflexivity | right; reflexivity].
+  - destruct (si_qc si) as [q|]; [destruct (q_ok q); [discriminate|]; left; reflexivity | right; split; reflexivity].
   - destruct (t_ok t); [discriminate|]. left; reflexivity.
-  - destruct (si_agg si) as [a|]; [destruct (a_ok a); [discriminate|]; left; reflexivity | right; reflexivity].
+  - destruct (si_agg si) as [a|]; [destruct (a_ok a); [discriminate|]; left; reflexivity | right; split; reflexivity].
+Qed.
+
+(* a TC that is present in a sync info that verified has verdict true *)
+Lemma verify_tc_ok : forall r si oq v tmo t,
+  verify_sync_info r si = Ok (oq, v, tmo) -> si_tc si = Some t -> t_ok t = true.
+Proof.
+  intros r si oq v tmo t H E.
+  destruct r; cbn [verify_sync_info] in H;
+    [unfold verify_sync_info_simple in H | unfold verify_sync_info_aggregate in H];
+    unfold verify_tc_part in H; rewrite E in H; destruct (t_ok t); auto; discriminate.
 Qed.
 
 (* ------------------------------------------------------------------------------------------ *)
@@ -146,10 +156,35 @@ Qed.
 (* ------------------------------------------------------------------------------------------ *)
 (* advanceView *)
 
+(* the state after the high-QC and high-TC updates of advanceView *)
+Definition after_certs (st : pm_state) (oq : option qc_in) (si : sync_info) : pm_state :=
+  let st0 := match oq with Some q => fst (update_high_qc st q) | None => st end in
+  match si_tc si with Some t => update_high_tc st0 (t_view t) | None => st0 end.
+
+Lemma after_certs_frame : forall st oq si,
+  let st1 := after_certs st oq si in
+  st_view st1 = st_view st /\ st_cview st1 = st_cview st /\
+  st_htc st1 = match si_tc si with Some t => N.max (st_htc st) (t_view t) | None => st_htc st end /\
+  st_hq_view st1 = st_hq_view (match oq with Some q => fst (update_high_qc st q) | None => st end) /\
+  st_hq_hash st1 = st_hq_hash (match oq with Some q => fst (update_high_qc st q) | None => st end).
+Proof.
+  intros st oq si. unfold after_certs.
+  set (st0 := match oq with Some q => fst (update_high_qc st q) | None => st end).
+  assert (F : st_view st0 = st_view st /\ st_htc st0 = st_htc st /\ st_cview st0 = st_cview st).
+  { subst st0. destruct oq as [q|]; [apply update_high_qc_frame | auto]. }
+  destruct F as (F1 & F2 & F3).
+  destruct (si_tc si) as [t|]; cbn zeta.
+  - pose proof (update_high_tc_spec st0 (t_view t)) as (A & B & C & D & E). cbn zeta in *.
+    rewrite A, B, C, D, E, F1, F2, F3. auto.
+  - auto.
+Qed.
+
 (* complete description of one advanceView call *)
 Lemma advance_view_spec : forall r st si st' evs,
   advance_view r st si = (st', evs) ->
-  st_htc st' = st_htc st /\ st_cview st' = st_cview st /\
+  st_cview st' = st_cview st /\
+  (st_htc st' = st_htc st \/
+   exists t, si_tc si = Some t /\ t_ok t = true /\ st_htc st < t_view t /\ st_htc st' = t_view t) /\
   ((st_view st' = st_view st /\ evs = []) \/
    (st_view st' = st_view st + 1 /\
     exists oq v tmo, verify_sync_info r si = Ok (oq, v, tmo) /\ st_view st <= v /\
@@ -158,10 +193,14 @@ Proof.
   intros r st si st' evs. unfold advance_view.
   destruct (verify_sync_info r si) as [[[oq v] tmo]| |] eqn:EV;
     [| intros H; inversion H; subst; auto | intros H; inversion H; subst; auto].
-  set (st1 := match oq with Some q => fst (update_high_qc st q) | None => st end).
-  assert (F : st_view st1 = st_view st /\ st_htc st1 = st_htc st /\ st_cview st1 = st_cview st).
-  { subst st1. destruct oq as [q|]; [apply update_high_qc_frame | auto]. }
-  destruct F as (F1 & F2 & F3).
+  fold (after_certs st oq si).
+  pose proof (after_certs_frame st oq si) as (F1 & F3 & F2 & _). cbn zeta in *.
+  set (st1 := after_certs st oq si) in *.
+  assert (HT : st_htc st1 = st_htc st \/
+               exists t, si_tc si = Some t /\ t_ok t = true /\ st_htc st < t_view t /\ st_htc st1 = t_view t).
+  { destruct (si_tc si) as [t|] eqn:ET; [|left; exact F2].
+    destruct (N.le_gt_cases (t_view t) (st_htc st)) as [C | C]; [left; lia|].
+    right. exists t. repeat split; auto; [eapply verify_tc_ok; eauto | lia]. }
   destruct (v <? st_view st1) eqn:EL; intros H; inversion H; subst; cbn.
   - repeat split; auto.
   - repeat split; auto. right. split; [lia|]. exists oq, v, tmo. repeat split; auto. lia.
@@ -172,8 +211,10 @@ Lemma advance_view_hq : forall r st si, si_wf si ->
 Proof.
   intros r st si [W1 W2]. unfold advance_view.
   destruct (verify_sync_info r si) as [[[oq v] tmo]| |] eqn:EV; cbn; try lia.
-  assert (M : st_hq_view st <= st_hq_view (match oq with Some q => fst (update_high_qc st q) | None => st end)).
-  { destruct oq as [q|]; [|lia]. apply update_high_qc_mono.
+  fold (after_certs st oq si).
+  pose proof (after_certs_frame st oq si) as (_ & _ & _ & F4 & _). cbn zeta in F4.
+  assert (M : st_hq_view st <= st_hq_view (after_certs st oq si)).
+  { rewrite F4. destruct oq as [q|]; [|lia]. apply update_high_qc_mono.
     pose proof (verify_qc_ok _ _ _ _ _ EV) as K. destruct r.
     - destruct K as [K1 K2]. eauto.
     - destruct K as (a & K1 & K2 & K3). subst q. eauto. }
@@ -255,7 +296,7 @@ Proof.
   intros r st a st' evs H.
   assert (V : st_view st <= st_view st') by (destruct (step_view_spec _ _ _ _ _ H) as [[E _] | [E _]]; lia).
   split; [exact V|]. destruct a as [si|q|v|ch]; cbn [step] in H.
-  - destruct (advance_view_spec _ _ _ _ _ H) as (E1 & E2 & _). lia.
+  - destruct (advance_view_spec _ _ _ _ _ H) as (E1 & [E2 | (t & _ & _ & E2 & E3)] & _); lia.
   - inversion H; subst. pose proof (update_high_qc_frame st q) as (_ & E1 & E2). cbn zeta in *. lia.
   - inversion H; subst. pose proof (update_high_tc_spec st v) as (_ & _ & _ & E1 & E2). cbn zeta in *. lia.
   - destruct (commit_spec _ _ _ _ H) as (_ & _ & _ & E1 & [[E2 _] | (v & rest & _ & E3 & E4 & _)]); lia.
@@ -304,8 +345,8 @@ Theorem invalid_inert : forall r st si,
   1 <= st_view st -> nothing_verifies si = true -> step r st (AAdvance si) = (st, []).
 Proof.
   intros r st si P H. cbn [step]. unfold advance_view.
-  destruct (nothing_verifies_rejects_or_zero r si H) as [E | E]; rewrite E; [reflexivity|].
-  assert (L : (0 <? st_view st) = true) by lia. rewrite L. reflexivity.
+  destruct (nothing_verifies_rejects_or_zero r si H) as [E | [E ET]]; rewrite E; [reflexivity|].
+  rewrite ET. assert (L : (0 <? st_view st) = true) by lia. rewrite L. reflexivity.
 Qed.
 
 Theorem no_evidence_no_move : forall r st si st' evs,
@@ -436,15 +477,21 @@ Qed.
 Lemma init_view_pos : 1 <= st_view init_state.
 Proof. cbn. lia. Qed.
 
-(* the high TC is only ever changed by UpdateHighTC, which the handlers never call *)
-Theorem only_update_high_tc_moves_high_tc : forall r st a st' evs,
-  step r st a = (st', evs) -> (forall v, a <> AHighTC v) -> st_htc st' = st_htc st.
+(* the high TC moves only upwards, and only to the view of a TC that verified (advanceView) or that was
+   handed to UpdateHighTC directly *)
+Theorem high_tc_moves_only_to_verified_tc : forall r st a st' evs,
+  step r st a = (st', evs) -> st_htc st' <> st_htc st ->
+  st_htc st < st_htc st' /\
+  ((exists v, a = AHighTC v /\ st_htc st' = v) \/
+   (exists si t, a = AAdvance si /\ si_tc si = Some t /\ t_ok t = true /\ st_htc st' = t_view t)).
 Proof.
-  intros r st a st' evs H NA. destruct a as [si|q|v|ch]; cbn [step] in H.
-  - destruct (advance_view_spec _ _ _ _ _ H) as (E & _). exact E.
-  - inversion H; subst. apply update_high_qc_frame.
-  - exfalso. apply (NA v). reflexivity.
-  - destruct (commit_spec _ _ _ _ H) as (_ & _ & _ & E & _). exact E.
+  intros r st a st' evs H NE. destruct a as [si|q|v|ch]; cbn [step] in H.
+  - destruct (advance_view_spec _ _ _ _ _ H) as (_ & [E | (t & E1 & E2 & E3 & E4)] & _); [contradiction|].
+    split; [lia|]. right. exists si, t. auto.
+  - inversion H; subst. exfalso. apply NE. apply update_high_qc_frame.
+  - inversion H; subst. pose proof (update_high_tc_spec st v) as (_ & _ & _ & _ & E). cbn zeta in E.
+    split; [lia|]. left. exists v. split; [reflexivity | lia].
+  - destruct (commit_spec _ _ _ _ H) as (_ & _ & _ & E & _). contradiction.
 Qed.
 
 (* the committed view after a commit decision: the decided block's view if the whole ancestor chain above the
